@@ -12,6 +12,33 @@
 (* the engine marks that exchange's account link - hence global             *)
 (* connectivity - unhealthy, the other exchanges' links are untouched).     *)
 (*                                                                         *)
+(* TRADED and DATA-ONLY exchanges.  The engine tracks every exchange of the *)
+(* instrument collection (EXCH), but only the exchanges an execution was    *)
+(* added for (TRADED) have a request channel, an ExecutionManager, a client *)
+(* and an account link (ExecutionBuilder::build: `None` in the engine's     *)
+(* MultiExchangeTxMap for the others, so that slot k of the map still is    *)
+(* exchange k).  A data-only exchange (EXCH \ TRADED) contributes market    *)
+(* data only:                                                               *)
+(*   * no request ever travels for it, nothing is ever answered in its name *)
+(*     (Routed);                                                            *)
+(*   * its ACCOUNT link health is what EngineState starts every link with - *)
+(*     Health::Reconnecting ("down") - and nothing can ever change it: no   *)
+(*     account item and no account notice naming it exists.  Global health  *)
+(*     is the conjunction over every tracked exchange of both links         *)
+(*     (ConnectivityStates: `exchange_states().all(all_healthy)`), so a     *)
+(*     system with a data-only exchange is NEVER globally healthy           *)
+(*     (NeverGloballyHealthy).  This is what the code does; the property    *)
+(*     text of C14 ("healthy exactly when every link is") is read literally: *)
+(*     the account link that does not exist is a link that is not healthy.   *)
+(*   * its MARKET link is like any other: items mark it healthy, a           *)
+(*     disconnect notice marks it reconnecting and invokes the               *)
+(*     on-disconnect strategy exactly once, naming that exchange.            *)
+(*                                                                         *)
+(* The market stream (SpecMkt / NextMkt): the environment delivers, for any *)
+(* tracked exchange, market items and market disconnect notices into the    *)
+(* same feed (the system's two forwarders share the engine's feed; each     *)
+(* source is FIFO, which is all the properties below need).                 *)
+(*                                                                         *)
 (* Purpose: the closing sentence of C07 - "an order the engine shows as in  *)
 (* flight is always eventually resolved" - is a LIVENESS property of the    *)
 (* composition: C03 puts the marker, C07 answers every request exactly      *)
@@ -19,48 +46,80 @@
 (* TLC under weak fairness of the manager, the client/timeout race and the  *)
 (* engine loop.                                                             *)
 (*                                                                         *)
-(* Code: barter/src/engine/mod.rs (process), action/send_requests.rs,       *)
-(* execution/manager.rs (run: select over request stream / in-flight        *)
-(* futures with tokio::time::timeout), engine/state/order/mod.rs.           *)
+(* Deliberately open (nondeterministic) / outside the model:                *)
+(*   * which exchange an order is for, when the environment delivers market *)
+(*     items / notices and for which exchange, when links connect and die;  *)
+(*   * a request addressed to a DATA-ONLY exchange is not modelled: in the  *)
+(*     code it is an unrecoverable send error that stops the engine (DESIGN *)
+(*     12.4, observation); home[c] ranges over TRADED only and the drivers  *)
+(*     never trade a data-only instrument.  Filter commands that MATCH      *)
+(*     data-only instruments holding no orders / positions produce no       *)
+(*     request: they are stuttering steps here.                             *)
+(*                                                                         *)
+(* Code: barter/src/engine/mod.rs (process, update_from_market_stream,      *)
+(* update_from_account_stream), action/send_requests.rs, execution/         *)
+(* builder.rs (build: the tx map), execution/manager.rs (run: select over   *)
+(* request stream / in-flight futures with tokio::time::timeout),           *)
+(* engine/state/order/mod.rs, engine/state/connectivity/mod.rs.             *)
 (***************************************************************************)
 EXTENDS Integers, Sequences, FiniteSets, TLC
 
 CONSTANTS CID,        \* client order ids
-          EXCH,       \* exchanges, each with its own request channel, execution manager and client
+          EXCH,       \* every exchange the engine tracks (instruments indexed)
+          TRADED,     \* the exchanges with an execution link: own request channel, execution manager and client
           MaxSends,   \* bound on requests the engine may send per id (keeps the model finite)
-          MaxKills    \* bound on execution links the environment may kill
+          MaxKills,   \* bound on execution links the environment may kill
+          MaxMkt      \* bound on market-stream events (items + notices) the environment delivers (NextMkt)
+
+ASSUME TRADED \subseteq EXCH
+DataOnly == EXCH \ TRADED
 
 NoExch == "none"
 
 VARIABLES orders,     \* [CID -> {"U","OIF","Open","CIFn","CIFo"}]   engine view
-          home,       \* [CID -> EXCH \cup {NoExch}]  the exchange of the instrument the order is for
-          chan,       \* [EXCH -> request channel engine -> that exchange's execution manager (FIFO)]
+          home,       \* [CID -> TRADED \cup {NoExch}]  the exchange of the instrument the order is for
+          chan,       \* [TRADED -> request channel engine -> that exchange's execution manager (FIFO)]
           pending,    \* requests accepted by a manager, awaiting response or timeout
-          feed,       \* account-stream events on their way to the engine (FIFO, all exchanges merged)
+          feed,       \* events on their way to the engine (FIFO, all exchanges, account and market merged)
           sends,      \* [CID -> Nat] requests sent so far per id
           answered,   \* ghost: number of account events produced per request
-          link,       \* [EXCH -> {"connecting","up","dead"}]  the exchange's execution link (environment)
-          conn        \* [EXCH -> {"up","down"}]  engine view: health of the exchange's account link
-                      \*   (starts "down": Health::Reconnecting until the first account item arrives)
+          link,       \* [TRADED -> {"connecting","up","dead"}]  the exchange's execution link (environment)
+          conn,       \* [EXCH -> {"up","down"}]  engine view: health of the exchange's account link
+                      \*   (starts "down": Health::Reconnecting until the first account item arrives;
+                      \*    for a data-only exchange: for ever)
+          mlink,      \* [EXCH -> {"none","up","down"}] environment: the last thing the market stream delivered
+                      \*   for the exchange - nothing yet / an item / a disconnect notice
+          mkt,        \* [EXCH -> {"up","down"}]  engine view: health of the exchange's market-data link
+          mk,         \* market-stream events delivered so far
+          calls       \* the on-disconnect strategy invocations of the engine's latest processing step
+                      \*   (sequence of exchanges)
 
-vars == <<orders, home, chan, pending, feed, sends, answered, link, conn>>
+vars == <<orders, home, chan, pending, feed, sends, answered, link, conn, mlink, mkt, mk, calls>>
 
 \* n = serial number of the request, x = the exchange whose link carries it
 Req(k, c, n, x) == [k |-> k, c |-> c, n |-> n, x |-> x]
 InFlight(c) == orders[c] \in {"OIF", "CIFn", "CIFo"}
+\* feed entries: t in item | snap | notice (account stream) , mitem | mnotice (market stream)
+Ev(t, c, kind, x) == [t |-> t, c |-> c, kind |-> kind, x |-> x]
+Account(e) == e.t \in {"item", "snap", "notice"}
 
 Init == /\ orders = [c \in CID |-> "U"]
         /\ home = [c \in CID |-> NoExch]
-        /\ chan = [x \in EXCH |-> <<>>] /\ pending = {} /\ feed = <<>>
+        /\ chan = [x \in TRADED |-> <<>>] /\ pending = {} /\ feed = <<>>
         /\ sends = [c \in CID |-> 0]
         /\ answered = [r \in {} |-> 0]
-        /\ link = [x \in EXCH |-> "connecting"]
+        /\ link = [x \in TRADED |-> "connecting"]
         /\ conn = [x \in EXCH |-> "down"]
+        /\ mlink = [x \in EXCH |-> "none"]
+        /\ mkt = [x \in EXCH |-> "down"]
+        /\ mk = 0
+        /\ calls = <<>>
 
 Serial(c) == sends[c] + 1
 
 (* ---- engine: strategy / commands send requests and mark them in flight (C03); the request ---- *)
-(* ---- travels on the channel of the exchange the order's instrument belongs to (C04)        ---- *)
+(* ---- travels on the channel of the exchange the order's instrument belongs to (C04); only  ---- *)
+(* ---- traded exchanges have one                                                             ---- *)
 EngineSendOpen(c, x) ==
   /\ orders[c] = "U" /\ sends[c] < MaxSends
   /\ home[c] \in {NoExch, x} /\ link[x] # "dead"
@@ -68,7 +127,7 @@ EngineSendOpen(c, x) ==
   /\ orders' = [orders EXCEPT ![c] = "OIF"]
   /\ chan' = [chan EXCEPT ![x] = Append(@, Req("open", c, Serial(c), x))]
   /\ sends' = [sends EXCEPT ![c] = @ + 1]
-  /\ UNCHANGED <<pending, feed, answered, link, conn>>
+  /\ UNCHANGED <<pending, feed, answered, link, conn, mlink, mkt, mk, calls>>
 
 \* (a cancel may be sent for an order that has meanwhile been resolved: the request still travels,
 \*  the engine's view of an untracked or already-cancelling order does not change)
@@ -77,7 +136,7 @@ EngineSendCancel(c) ==
   /\ orders' = [orders EXCEPT ![c] = CASE @ = "OIF" -> "CIFn" [] @ = "Open" -> "CIFo" [] OTHER -> @]
   /\ chan' = [chan EXCEPT ![home[c]] = Append(@, Req("cancel", c, Serial(c), home[c]))]
   /\ sends' = [sends EXCEPT ![c] = @ + 1]
-  /\ UNCHANGED <<home, pending, feed, answered, link, conn>>
+  /\ UNCHANGED <<home, pending, feed, answered, link, conn, mlink, mkt, mk, calls>>
 
 (* ---- execution manager of exchange x (C07): accept, then exactly one of response / timeout ---- *)
 \* (the manager starts serving requests once its client is connected: ExecutionManager::init
@@ -86,13 +145,13 @@ MgrAccept(x) ==
   /\ chan[x] # <<>> /\ link[x] # "connecting"
   /\ pending' = pending \cup {Head(chan[x])}
   /\ chan' = [chan EXCEPT ![x] = Tail(@)]
-  /\ UNCHANGED <<orders, home, feed, sends, answered, link, conn>>
+  /\ UNCHANGED <<orders, home, feed, sends, answered, link, conn, mlink, mkt, mk, calls>>
 
 \* the account event carries the exchange of the manager that produced it
 Emit(r, kind) == /\ pending' = pending \ {r}
-                 /\ feed' = Append(feed, [t |-> "item", c |-> r.c, kind |-> kind, x |-> r.x])
+                 /\ feed' = Append(feed, Ev("item", r.c, kind, r.x))
                  /\ answered' = (r :> 1) @@ answered
-                 /\ UNCHANGED <<orders, home, chan, sends, link, conn>>
+                 /\ UNCHANGED <<orders, home, chan, sends, link, conn, mlink, mkt, mk, calls>>
 
 \* the client's own answer: open -> open on the book / filled / rejected ; cancel -> ok / err
 ClientResponds(r) ==
@@ -108,86 +167,133 @@ TimeoutFires(r) ==
 VenueReport(c) ==
   /\ orders[c] \in {"Open", "CIFo"} /\ Len(feed) < 2 /\ link[home[c]] # "dead"
   /\ \E k \in {"open_filled", "venue_cancelled"} :
-        feed' = Append(feed, [t |-> "item", c |-> c, kind |-> k, x |-> home[c]])
-  /\ UNCHANGED <<orders, home, chan, pending, sends, answered, link, conn>>
+        feed' = Append(feed, Ev("item", c, k, home[c]))
+  /\ UNCHANGED <<orders, home, chan, pending, sends, answered, link, conn, mlink, mkt, mk, calls>>
 
 (* ---- the exchange's client connects: its first message is a full account snapshot ---- *)
 Connect(x) ==
   /\ link[x] = "connecting"
   /\ link' = [link EXCEPT ![x] = "up"]
-  /\ feed' = Append(feed, [t |-> "snap", c |-> "", kind |-> "", x |-> x])
-  /\ UNCHANGED <<orders, home, chan, pending, sends, answered, conn>>
+  /\ feed' = Append(feed, Ev("snap", "", "", x))
+  /\ UNCHANGED <<orders, home, chan, pending, sends, answered, conn, mlink, mkt, mk, calls>>
 
 (* ---- an exchange's execution link dies (its task ends / is killed) once nothing is outstanding ---- *)
 (* ---- on it: the account stream delivers exactly ONE disconnect notice naming that exchange      ---- *)
 Quiet(x) == chan[x] = <<>> /\ \A r \in pending : r.x # x
 KillLink(x) ==
   /\ link[x] = "up" /\ Quiet(x)
-  /\ \A j \in 1..Len(feed) : feed[j].x # x          \* (and once its items have been consumed)
-  /\ Cardinality({y \in EXCH : link[y] = "dead"}) < MaxKills
+  /\ \A j \in 1..Len(feed) : Account(feed[j]) => feed[j].x # x      \* (and once its items have been consumed)
+  /\ Cardinality({y \in TRADED : link[y] = "dead"}) < MaxKills
   /\ link' = [link EXCEPT ![x] = "dead"]
-  /\ feed' = Append(feed, [t |-> "notice", c |-> "", kind |-> "", x |-> x])
-  /\ UNCHANGED <<orders, home, chan, pending, sends, answered, conn>>
+  /\ feed' = Append(feed, Ev("notice", "", "", x))
+  /\ UNCHANGED <<orders, home, chan, pending, sends, answered, conn, mlink, mkt, mk, calls>>
 
-(* ---- engine processes one account event (C01's transitions on kinds) ---- *)
+(* ---- the market stream (environment): an item / a disconnect notice of ANY tracked exchange, ---- *)
+(* ---- traded or data-only                                                                      ---- *)
+MarketItem(x) ==
+  /\ mk < MaxMkt /\ Len(feed) < 2
+  /\ mk' = mk + 1
+  /\ mlink' = [mlink EXCEPT ![x] = "up"]
+  /\ feed' = Append(feed, Ev("mitem", "", "", x))
+  /\ UNCHANGED <<orders, home, chan, pending, sends, answered, link, conn, mkt, calls>>
+MarketNotice(x) ==
+  /\ mk < MaxMkt /\ Len(feed) < 2
+  /\ mk' = mk + 1
+  /\ mlink' = [mlink EXCEPT ![x] = "down"]
+  /\ feed' = Append(feed, Ev("mnotice", "", "", x))
+  /\ UNCHANGED <<orders, home, chan, pending, sends, answered, link, conn, mkt, calls>>
+
+(* ---- engine processes one event (C01's transitions on kinds; ConnectivityStates) ---- *)
 After(k, ev) ==
   CASE ev = "open_ok"      -> (CASE k \in {"CIFn", "CIFo"} -> "CIFo" [] OTHER -> "Open")
     [] ev \in {"open_filled", "open_failed", "venue_cancelled"} -> "U"
     [] ev = "cancel_ok"    -> "U"
     [] ev = "cancel_err"   -> (CASE k = "CIFo" -> "Open" [] k = "CIFn" -> "U" [] OTHER -> k)
 
+\* the on-disconnect invocations the engine owes for processing e: one per disconnect notice, naming
+\* the exchange of the notice - whichever stream delivered it, whether or not that exchange is traded
+Owed(e) == IF e.t \in {"notice", "mnotice"} THEN <<e.x>> ELSE <<>>
+
 \* an account item: C01's transition, and the item proves the link alive (C14: healthy again);
-\* a disconnect notice: that exchange's account link is marked down, nothing else changes
+\* an account disconnect notice: that exchange's account link is marked down, nothing else changes;
+\* a market item / market disconnect notice: the same for that exchange's market-data link
 EngineProcess ==
   /\ feed # <<>>
   /\ LET e == Head(feed) IN
-       CASE e.t = "item" -> /\ orders' = [orders EXCEPT ![e.c] = After(@, e.kind)]
-                            /\ conn' = [conn EXCEPT ![e.x] = "up"]
-         [] e.t = "snap" -> /\ conn' = [conn EXCEPT ![e.x] = "up"]
-                            /\ UNCHANGED orders
-         [] OTHER        -> /\ conn' = [conn EXCEPT ![e.x] = "down"]
-                            /\ UNCHANGED orders
+       /\ CASE e.t = "item"    -> /\ orders' = [orders EXCEPT ![e.c] = After(@, e.kind)]
+                                  /\ conn' = [conn EXCEPT ![e.x] = "up"]
+                                  /\ UNCHANGED mkt
+            [] e.t = "snap"    -> /\ conn' = [conn EXCEPT ![e.x] = "up"]
+                                  /\ UNCHANGED <<orders, mkt>>
+            [] e.t = "notice"  -> /\ conn' = [conn EXCEPT ![e.x] = "down"]
+                                  /\ UNCHANGED <<orders, mkt>>
+            [] e.t = "mitem"   -> /\ mkt' = [mkt EXCEPT ![e.x] = "up"]
+                                  /\ UNCHANGED <<orders, conn>>
+            [] e.t = "mnotice" -> /\ mkt' = [mkt EXCEPT ![e.x] = "down"]
+                                  /\ UNCHANGED <<orders, conn>>
+       /\ calls' = Owed(e)
   /\ feed' = Tail(feed)
-  /\ UNCHANGED <<home, chan, pending, sends, answered, link>>
+  /\ UNCHANGED <<home, chan, pending, sends, answered, link, mlink, mk>>
 
-Next == \/ \E c \in CID : (\E x \in EXCH : EngineSendOpen(c, x)) \/ EngineSendCancel(c) \/ VenueReport(c)
-        \/ \E x \in EXCH : MgrAccept(x) \/ Connect(x) \/ KillLink(x)
+Next == \/ \E c \in CID : (\E x \in TRADED : EngineSendOpen(c, x)) \/ EngineSendCancel(c) \/ VenueReport(c)
+        \/ \E x \in TRADED : MgrAccept(x) \/ Connect(x) \/ KillLink(x)
         \/ \E r \in pending : ClientResponds(r) \/ TimeoutFires(r)
         \/ EngineProcess
+\* ... with the market stream
+NextMkt == Next \/ \E x \in EXCH : MarketItem(x) \/ MarketNotice(x)
 
 Answer(r) == ClientResponds(r) \/ TimeoutFires(r)
 
-Spec == /\ Init /\ [][Next]_vars
-        /\ \A x \in EXCH : WF_vars(MgrAccept(x)) /\ WF_vars(Connect(x))
-        /\ WF_vars(EngineProcess)
-        /\ \A c \in CID, n \in 1..MaxSends, k \in {"open", "cancel"}, x \in EXCH : WF_vars(Answer(Req(k, c, n, x)))
+Fairness == /\ \A x \in TRADED : WF_vars(MgrAccept(x)) /\ WF_vars(Connect(x))
+            /\ WF_vars(EngineProcess)
+            /\ \A c \in CID, n \in 1..MaxSends, k \in {"open", "cancel"}, x \in TRADED : WF_vars(Answer(Req(k, c, n, x)))
+
+Spec == Init /\ [][Next]_vars /\ Fairness
+\* the same system with the market stream of every tracked exchange (no fairness of the environment)
+SpecMkt == Init /\ [][NextMkt]_vars /\ Fairness
 
 \* the same system without fairness of the response/timeout race: used only to show that
 \* `Resolved` is not vacuous (TLC must find a counterexample: a request that is never answered)
-SpecUnfairAnswer == Init /\ [][Next]_vars /\ (\A x \in EXCH : WF_vars(MgrAccept(x))) /\ WF_vars(EngineProcess)
+SpecUnfairAnswer == Init /\ [][Next]_vars /\ (\A x \in TRADED : WF_vars(MgrAccept(x))) /\ WF_vars(EngineProcess)
 
 (***************************************************************************)
 (* Properties                                                               *)
 (***************************************************************************)
 TypeOK == /\ orders \in [CID -> {"U", "OIF", "Open", "CIFn", "CIFo"}]
-          /\ home \in [CID -> EXCH \cup {NoExch}]
-          /\ \A r \in pending : r.k \in {"open", "cancel"} /\ r.x \in EXCH
-          /\ link \in [EXCH -> {"connecting", "up", "dead"}] /\ conn \in [EXCH -> {"up", "down"}]
+          /\ home \in [CID -> TRADED \cup {NoExch}]
+          /\ \A r \in pending : r.k \in {"open", "cancel"} /\ r.x \in TRADED
+          /\ link \in [TRADED -> {"connecting", "up", "dead"}] /\ conn \in [EXCH -> {"up", "down"}]
+          /\ mlink \in [EXCH -> {"none", "up", "down"}] /\ mkt \in [EXCH -> {"up", "down"}]
+          /\ mk \in 0..MaxMkt /\ calls \in {<<>>} \cup {<<x>> : x \in EXCH}
 
 \* C04 at the level of the composition: a request only ever travels on, is accepted by, and is
-\* answered in the name of the exchange its order belongs to
-Routed == /\ \A x \in EXCH : \A j \in 1..Len(chan[x]) : chan[x][j].x = x /\ home[chan[x][j].c] = x
+\* answered in the name of the exchange its order belongs to; nothing of the account stream bears
+\* the name of a data-only exchange
+Routed == /\ \A x \in TRADED : \A j \in 1..Len(chan[x]) : chan[x][j].x = x /\ home[chan[x][j].c] = x
           /\ \A r \in pending : home[r.c] = r.x
           /\ \A j \in 1..Len(feed) : feed[j].t = "item" => home[feed[j].c] = feed[j].x
+          /\ \A j \in 1..Len(feed) : Account(feed[j]) => feed[j].x \in TRADED
 
 \* C14 at the level of the composition: once the feed has drained, the engine shows an exchange's
-\* account link healthy exactly when that link is up, and global health is the conjunction
-GlobalHealthy == \A x \in EXCH : conn[x] = "up"
-ConnMatchesLinks == feed = <<>> => \A x \in EXCH : (conn[x] = "up") <=> (link[x] = "up")
+\* account link healthy exactly when that link is up - never for a data-only exchange, which has
+\* none -, its market link healthy exactly when the last word of the market stream about it was an
+\* item, and global health is the conjunction over every tracked exchange of both
+GlobalHealthy == \A x \in EXCH : conn[x] = "up" /\ mkt[x] = "up"
+ConnMatchesLinks == feed = <<>> => /\ \A x \in TRADED : (conn[x] = "up") <=> (link[x] = "up")
+                                   /\ \A x \in EXCH : (mkt[x] = "up") <=> (mlink[x] = "up")
+\* (at every moment, not only when drained)
+DataOnlyAccountDown == \A x \in DataOnly : conn[x] = "down"
+NeverGloballyHealthy == DataOnly # {} => ~GlobalHealthy
 \* every link that comes up is seen healthy
-Synced == \A x \in EXCH : (link[x] = "up") ~> (conn[x] = "up" \/ link[x] = "dead")
+Synced == /\ \A x \in TRADED : (link[x] = "up") ~> (conn[x] = "up" \/ link[x] = "dead")
+          /\ \A x \in EXCH : (mlink[x] = "up") ~> (mkt[x] = "up" \/ mlink[x] = "down")
 \* a dead link is noticed: its disconnect notice is eventually processed
-Noticed == \A x \in EXCH : (link[x] = "dead") ~> (conn[x] = "down")
+Noticed == /\ \A x \in TRADED : (link[x] = "dead") ~> (conn[x] = "down")
+           /\ \A x \in EXCH : (mlink[x] = "down") ~> (mkt[x] = "down" \/ mlink[x] = "up")
+\* each disconnect notice invokes the on-disconnect strategy exactly once, for the right exchange -
+\* and nothing else does
+OnDisconnectExact == [][calls' # calls \/ feed' # feed =>
+                          IF feed # <<>> /\ feed' = Tail(feed) THEN calls' = Owed(Head(feed)) ELSE calls' = calls]_vars
 
 \* never two account events for one request (C07 AtMostOne, by construction of Emit)
 AtMostOnce == \A r \in DOMAIN answered : answered[r] = 1
@@ -195,7 +301,7 @@ AtMostOnce == \A r \in DOMAIN answered : answered[r] = 1
 \* an in-flight marker always has a request on its way or an answer on its way
 InFlightBacked ==
   \A c \in CID : InFlight(c) =>
-     \/ \E x \in EXCH : \E j \in 1..Len(chan[x]) : chan[x][j].c = c
+     \/ \E x \in TRADED : \E j \in 1..Len(chan[x]) : chan[x][j].c = c
      \/ \E r \in pending : r.c = c
      \/ \E j \in 1..Len(feed) : feed[j].c = c
 
